@@ -38,8 +38,8 @@ CLAIMED = {
         note="PARTIAL. Registered harnesses use per-instance constant mount prefixes with symbolic paths <= 5 bytes over {/,a,b}. NOT decided (harnesses exist but do not finish under CBMC and are kept in the unregistered 'experimental' tier): exact-route-over-mount precedence in Router::get (std HashMap), middleware re-wrapping on registration order, struct segments = RFC 6901 tokens and the 16-segment boundary (str::split/memchr/replace), owned-vs-borrowed agreement of the built-in JSON/typed/bulk handlers (serde / beve parsers are encoded even on rejected formats). Derive macro outside.",
         ref="DESIGN.md §4 C07"),
     "C08": dict(
-        text="Bulk path only: bulk encode -> bulk decode is bit-exact for every element bit pattern; streaming writer == buffered builder; aligned form lands the payload on an element boundary of the frame for every query residue 0..8 and survives into_wire_bytes; wrong body format / wrong element type rejected; complex pairs (Complex<f32>) round trip and stream identically.",
-        note="PARTIAL: identity with the generic serde encoding and cross-decoding through serde are NOT decided (beve's serde walk exhausts memory under CBMC) - that is the first sentence of the property; 2 elements per instance; half floats and client/server routes over sockets outside; the borrowing bulk route (TypedSliceRefHandler, borrow-vs-copy by buffer alignment) needs > 11 GB per harness and is only in the unregistered 'experimental' tier.",
+        text="Bulk path only: bulk encode -> bulk decode is bit-exact for every element bit pattern; streaming writer == buffered builder; aligned form lands the payload on an element boundary of the frame for every query residue 0..8 and survives into_wire_bytes; wrong body format / wrong element type rejected; complex pairs (Complex<f32>) round trip and stream identically. Plus the empty slice across the two codecs (real serde encoder inside the model): the bulk decoders read the generic encoder's output for an empty vector (f64, u8, i32, Complex<f32>) - this clause found genuine defect C08-D, repaired by e3e9105.",
+        note="PARTIAL: identity with the generic serde encoding and cross-decoding through serde for NON-EMPTY slices are NOT decided (beve's serde walk over elements exhausts memory under CBMC) - that is the first sentence of the property; the empty-slice instances have no symbolic payload (a single point of the input space, decided by symbolic execution of the real encoder + decoder); the empty slice through the server routes is shown only natively (findings/C08_empty_generic_demo.rs); 2 elements per instance; half floats and client/server routes over sockets outside; the borrowing bulk route (TypedSliceRefHandler, borrow-vs-copy by buffer alignment) needs > 11 GB per harness and is only in the unregistered 'experimental' tier.",
         ref="DESIGN.md §4 C08"),
     "C09": dict(
         text="Sequential composition ChunkSink -> channel (FIFO contract) -> Session::pull -> chunk_response, also through the real producer engine produce() for a clean production, plus the Session protocol over symbolic producer message sequences (chunks then End / Fail / no marker): concatenation equals the payload, exactly one final chunk, non-final chunks full-size, empty payload = one empty final chunk, for symbolic payload bytes at every boundary residue (instances).",
